@@ -810,3 +810,105 @@ func freeVarBinding(fv *ssa.FreeVar) ssa.Value {
 	}
 	return out
 }
+
+// succRet is a success return of a function (last result nil) seen through tail calls: `return helper(a, b)` is
+// followed into the helper of the package, with the helper's parameters standing for the arguments of the call.
+type succRet struct {
+	Ret   *ssa.Return
+	Val   ssa.Value
+	Fn    *ssa.Function
+	Subst map[*ssa.Parameter]ssa.Value
+}
+
+// resolve replaces parameters of followed helpers by what the callers passed for them (repeatedly).
+func (s succRet) resolve(v ssa.Value) ssa.Value {
+	for i := 0; i < 8; i++ {
+		p, ok := v.(*ssa.Parameter)
+		if !ok {
+			return v
+		}
+		a, ok := s.Subst[p]
+		if !ok {
+			return v
+		}
+		v = a
+	}
+	return v
+}
+
+// contains reports whether pred holds for a value in the backward slice of v, looking through substituted
+// parameters.
+func (s succRet) contains(v ssa.Value, pred func(ssa.Value) bool) bool {
+	found := false
+	seen := map[ssa.Value]bool{}
+	var walk func(x ssa.Value, d int)
+	walk = func(x ssa.Value, d int) {
+		if x == nil || seen[x] || found || d > 12 {
+			return
+		}
+		seen[x] = true
+		if pred(x) {
+			found = true
+			return
+		}
+		if p, ok := x.(*ssa.Parameter); ok {
+			if a, ok := s.Subst[p]; ok {
+				walk(a, d+1)
+			}
+			return
+		}
+		if in, ok := x.(ssa.Instruction); ok {
+			for _, op := range in.Operands(nil) {
+				if *op != nil {
+					walk(*op, d+1)
+				}
+			}
+		}
+	}
+	walk(v, 0)
+	return found
+}
+
+func successReturns(fn *ssa.Function, pkgKey string) []succRet {
+	var out []succRet
+	var visit func(g *ssa.Function, subst map[*ssa.Parameter]ssa.Value, depth int)
+	visit = func(g *ssa.Function, subst map[*ssa.Parameter]ssa.Value, depth int) {
+		allInstrs(g, func(in ssa.Instruction) {
+			ret, ok := in.(*ssa.Return)
+			if !ok || len(ret.Results) < 1 {
+				return
+			}
+			// tail call: every result is the matching element of one call's tuple
+			if ex0, ok := ret.Results[0].(*ssa.Extract); ok && depth < 4 {
+				if c, ok := ex0.Tuple.(*ssa.Call); ok {
+					all := true
+					for i, r := range ret.Results {
+						ex, ok := r.(*ssa.Extract)
+						if !ok || ex.Tuple != ssa.Value(c) || ex.Index != i {
+							all = false
+						}
+					}
+					if h := staticCallee(c); all && h != nil && fnPkgKey(h) == pkgKey && len(h.Blocks) > 0 && h != g {
+						s2 := map[*ssa.Parameter]ssa.Value{}
+						for k, v := range subst {
+							s2[k] = v
+						}
+						for i, a := range c.Call.Args {
+							if i < len(h.Params) {
+								s2[h.Params[i]] = a
+							}
+						}
+						visit(h, s2, depth+1)
+						return
+					}
+				}
+			}
+			if len(ret.Results) >= 2 && !isNilConst(ret.Results[len(ret.Results)-1]) {
+				return
+			}
+			out = append(out, succRet{Ret: ret, Val: ret.Results[0], Fn: g, Subst: subst})
+		})
+	}
+	visit(fn, map[*ssa.Parameter]ssa.Value{}, 0)
+	return out
+}
